@@ -35,15 +35,32 @@ func (e *Enum) ConstByVal(v int64) *types.Const {
 	return nil
 }
 
-// Table is a package-level map variable initialised by a composite literal.
+// Table is a package-level map, array or slice variable initialised by a composite literal.
 type Table struct {
 	Var     *types.Var // nil for nested literals
 	Name    string
 	Pkg     *packages.Package
 	Pos     token.Pos
-	Type    *types.Map
+	KeyT    types.Type // key type of a map, int for an array or slice
+	ElemT   types.Type
 	Entries []*Entry
 	Parent  *Table
+	// Arr: an array or slice literal of Len elements; the indices without an entry hold the zero value of ElemT
+	Arr bool
+	Len int
+}
+
+// tableTypes returns key and element type when t is a type the table model represents.
+func tableTypes(t types.Type) (key, elem types.Type, arr, ok bool) {
+	switch u := t.Underlying().(type) {
+	case *types.Map:
+		return u.Key(), u.Elem(), false, true
+	case *types.Array:
+		return types.Typ[types.Int], u.Elem(), true, true
+	case *types.Slice:
+		return types.Typ[types.Int], u.Elem(), true, true
+	}
+	return nil, nil, false, false
 }
 
 type Entry struct {
@@ -90,6 +107,9 @@ func (v Value) String() string {
 	case VObj:
 		return v.Obj.Pkg().Name() + "." + v.Obj.Name()
 	case VOther:
+		if v.C != nil {
+			return "<other:" + v.C.ExactString() + ">"
+		}
 		return "<other>"
 	case VTable:
 		return "table:" + v.T.Name
@@ -107,6 +127,10 @@ func (v Value) String() string {
 // VOther is unequal to everything, including another VOther (callers only
 // use one representative per type).
 func Same(a, b Value) bool {
+	if (a.Kind == VOther && a.C != nil && (b.Kind == VConst || b.Kind == VOther)) || (b.Kind == VOther && b.C != nil && a.Kind == VConst) {
+		// a concrete out-of-range representative is the number it carries
+		return a.C != nil && b.C != nil && a.C.Kind() == b.C.Kind() && constant.Compare(a.C, token.EQL, b.C)
+	}
 	if a.Kind != b.Kind {
 		return false
 	}
@@ -232,11 +256,20 @@ func (f *Facts) collectTables(pk *packages.Package) {
 					if !ok {
 						continue
 					}
-					mt, ok := v.Type().Underlying().(*types.Map)
+					kt, et, arr, ok := tableTypes(v.Type())
 					if !ok {
 						continue
 					}
-					t := &Table{Var: v, Name: v.Name(), Pkg: pk, Pos: name.Pos(), Type: mt}
+					if arr {
+						// an array or slice is a table only when it is written as a literal (anything else stays an ordinary variable)
+						if i >= len(vs.Values) {
+							continue
+						}
+						if _, isLit := ast.Unparen(vs.Values[i]).(*ast.CompositeLit); !isLit {
+							continue
+						}
+					}
+					t := &Table{Var: v, Name: v.Name(), Pkg: pk, Pos: name.Pos(), KeyT: kt, ElemT: et, Arr: arr}
 					f.Tables[v] = t
 					f.AllTabs = append(f.AllTabs, t)
 					if i < len(vs.Values) {
@@ -272,13 +305,13 @@ func (t *Table) Root() *Table {
 // IsData: the table's cells (through nested maps) are strings, numbers, booleans or enumeration values - the
 // kind of table the specification's code, weight and name tables are; a map of functions or structs is not.
 func (t *Table) IsData() bool {
-	var elem types.Type = t.Root().Type
+	elem := t.Root().ElemT
 	for {
-		m, ok := elem.Underlying().(*types.Map)
+		_, et, _, ok := tableTypes(elem)
 		if !ok {
 			break
 		}
-		elem = m.Elem()
+		elem = et
 	}
 	_, ok := elem.Underlying().(*types.Basic)
 	return ok
@@ -286,27 +319,52 @@ func (t *Table) IsData() bool {
 
 func (f *Facts) fillTable(t *Table, cl *ast.CompositeLit) {
 	info := t.Pkg.TypesInfo
+	if at, ok := info.TypeOf(cl).Underlying().(*types.Array); ok {
+		t.Len = int(at.Len())
+	}
+	next := int64(0) // index of the next positional element of an array literal
 	for _, el := range cl.Elts {
 		kv, ok := el.(*ast.KeyValueExpr)
-		if !ok {
+		if !ok && !t.Arr {
 			f.problem(t, fmt.Sprintf("%s: table %s has a non key:value element", f.Prog.Pos(el.Pos()), t.Name))
 			continue
 		}
-		e := &Entry{KeyExpr: kv.Key, ValExpr: kv.Value, Pos: kv.Pos()}
-		e.Key = f.StaticValue(info, kv.Key)
-		if e.Key.Kind != VConst && e.Key.Kind != VObj {
+		var e *Entry
+		if ok {
+			e = &Entry{KeyExpr: kv.Key, ValExpr: kv.Value, Pos: kv.Pos()}
+			e.Key = f.StaticValue(info, kv.Key)
+		} else {
+			e = &Entry{ValExpr: el, Pos: el.Pos()}
+			e.Key = Value{Kind: VConst, C: constant.MakeInt64(next), Type: types.Typ[types.Int]}
+		}
+		if t.Arr {
+			// the compiler requires constant integer indices
+			i, exact := int64(0), false
+			if e.Key.Kind == VConst && e.Key.C != nil {
+				i, exact = constant.Int64Val(constant.ToInt(e.Key.C))
+			}
+			if !exact {
+				f.problem(t, fmt.Sprintf("%s: table %s has an index that is not an integer constant", f.Prog.Pos(e.Pos), t.Name))
+				continue
+			}
+			next = i + 1
+			if int(next) > t.Len {
+				t.Len = int(next)
+			}
+		} else if e.Key.Kind != VConst && e.Key.Kind != VObj {
 			f.problem(t, fmt.Sprintf("%s: table %s has a key that is neither a constant nor a package-level value", f.Prog.Pos(kv.Key.Pos()), t.Name))
 		}
-		if sub, ok := ast.Unparen(kv.Value).(*ast.CompositeLit); ok {
-			if mt, ok := info.TypeOf(sub).Underlying().(*types.Map); ok {
-				st := &Table{Name: t.Name + "[" + e.Key.String() + "]", Pkg: t.Pkg, Pos: sub.Pos(), Type: mt, Parent: t}
+		if sub, ok := ast.Unparen(e.ValExpr).(*ast.CompositeLit); ok {
+			// the literal's type may be elided; go/types records it all the same
+			if kt, et, arr, ok := tableTypes(info.TypeOf(sub)); ok {
+				st := &Table{Name: t.Name + "[" + e.Key.String() + "]", Pkg: t.Pkg, Pos: sub.Pos(), KeyT: kt, ElemT: et, Arr: arr, Parent: t}
 				f.fillTable(st, sub)
 				e.Val = Value{Kind: VTable, T: st}
 				t.Entries = append(t.Entries, e)
 				continue
 			}
 		}
-		e.Val = f.StaticValue(info, kv.Value)
+		e.Val = f.StaticValue(info, e.ValExpr)
 		if e.Val.Kind == VInvalid {
 			e.Val = Value{Kind: VPending}
 		}
@@ -378,7 +436,8 @@ func (f *Facts) resolvePending() {
 	}
 }
 
-// Lookup returns the value stored under key.
+// Lookup returns the value stored under key (for an array: only the elements the literal spells out; At gives
+// the implicit zero elements as well).
 func (t *Table) Lookup(key Value) (Value, bool) {
 	for _, e := range t.Entries {
 		if Same(e.Key, key) {
@@ -386,6 +445,16 @@ func (t *Table) Lookup(key Value) (Value, bool) {
 		}
 	}
 	return Value{}, false
+}
+
+// InRange: key is a valid index of an array table.
+func (t *Table) InRange(key Value) bool {
+	c, ok := numOf(key)
+	if !t.Arr || !ok {
+		return false
+	}
+	i, exact := constant.Int64Val(c)
+	return exact && 0 <= i && i < int64(t.Len)
 }
 
 // DuplicateKeys lists keys that occur more than once (possible only for
@@ -467,7 +536,24 @@ func (f *Facts) Domain(t types.Type) []Value {
 	}
 	if !seen[0] {
 		out = append(out, Value{Kind: VConst, C: constant.MakeInt64(0), Type: t})
+		seen[0] = true
 	}
+	// out-of-range representatives: the number just below and just above the declared ones (what an ordered
+	// comparison or an array index can tell apart), and the abstract "any other value", which ordered
+	// comparisons read as a number above every other
+	lo, hi := int64(0), int64(0)
+	for v := range seen {
+		if v < lo {
+			lo = v
+		}
+		if v > hi {
+			hi = v
+		}
+	}
+	if b, ok := t.Underlying().(*types.Basic); ok && b.Info()&types.IsUnsigned == 0 {
+		out = append(out, Value{Kind: VOther, C: constant.MakeInt64(lo - 1), Type: t})
+	}
+	out = append(out, Value{Kind: VOther, C: constant.MakeInt64(hi + 1), Type: t})
 	out = append(out, Value{Kind: VOther, Type: t})
 	return out
 }
